@@ -155,16 +155,40 @@ def check(run):
     run.instance("R4", at.where, f"apply_transform writes only parameters in the DataStore ({sorted({'.'.join(p) for (r, p, k) in sm.writes if r == at.params[0] and k != 'memo'})})", ok)
     if not ok:
         run.violation("R4", at.where, f"Primitive.apply_transform writes state other than the hashed parameters: {bad[:4]}", key=key_of("C15-R4", "writes"))
+    # the factor by role: what the size parameters are multiplied by (`prim.primitive.radius *= f`, `... = ... * f`)
+    scale_name = None
+    for st in ast.walk(at.node):
+        if isinstance(st, ast.AugAssign) and isinstance(st.op, ast.Mult) and isinstance(st.target, ast.Attribute) and isinstance(st.value, ast.Name):
+            scale_name = st.value.id
     scale_def = None
     for st in ast.walk(at.node):
-        if isinstance(st, ast.Assign) and isinstance(st.targets[0], ast.Name) and st.targets[0].id == "scale":
+        if isinstance(st, ast.Assign) and isinstance(st.targets[0], ast.Name) and st.targets[0].id == (scale_name or "scale"):
             scale_def = st.value
     if scale_def is None:
-        raise AnalysisError("anchor vanished: `scale = ...` in Primitive.apply_transform")
-    nonneg, why = _nonnegative(scale_def)
-    # or every use is guarded by `scale > 0`
-    run.instance("R4", at.where, f"scale factor `{ast.unparse(scale_def)}`: {why}", nonneg)
-    if not nonneg:
+        run.instance("R4", at.where, "the factor multiplied into the size parameters is not a local with one definition - NOT decided", True, nontrivial=False)
+        run.assume("Primitive.apply_transform: scale factor not recognised")
+        nonneg, why = True, ""
+    else:
+        # locals with one definition and module constants are replaced by their definitions before the sign is judged
+        import copy as _copy
+
+        class _Sub(ast.NodeTransformer):
+            def visit_Name(self, n_):
+                ds = [a_.value for a_ in ast.walk(at.node) if isinstance(a_, ast.Assign) and len(a_.targets) == 1 and isinstance(a_.targets[0], ast.Name) and a_.targets[0].id == n_.id]
+                if len(ds) == 1 and isinstance(n_.ctx, ast.Load) and n_.id not in at.params:
+                    return self.visit(_copy.deepcopy(ds[0]))
+                if n_.id in at.module.constants and isinstance(n_.ctx, ast.Load):
+                    cst = at.module.constants[n_.id][-1]
+                    if isinstance(cst, ast.Assign):
+                        return _copy.deepcopy(cst.value)
+                return n_
+
+        folded = _Sub().visit(_copy.deepcopy(scale_def))
+        nonneg, why = _nonnegative(folded)
+        run.instance("R4", at.where, f"scale factor `{ast.unparse(scale_def)}` (= `{ast.unparse(folded)[:60]}`): {why}", nonneg is not False, nontrivial=nonneg is not None)
+        if nonneg is None:
+            run.assume("Primitive.apply_transform: sign of the scale factor not established either way")
+    if nonneg is False:
         run.violation("R4", at.where,
                       f"the factor `{ast.unparse(scale_def)}` multiplied into height / radius / extents can be negative (reflections): the primitive "
                       f"gets negative sizes and its analytic volume no longer matches its mesh", key=key_of("C15-R4", "negative-scale"))
@@ -428,7 +452,7 @@ def _nonnegative(e):
             return True, "numpy float raised to a fractional power: NaN for negative determinants, which takes the unscaled branch"
         if isinstance(ex, (int, float)) and ex == int(ex) and int(ex) % 2 == 0:
             return True, "even power"
-    return False, "sign not established"
+    return None, "sign not established either way - NOT decided"
 
 
 _R6_POSITIVE = """
